@@ -304,15 +304,18 @@ impl<T> RawTable<T> {
         if bucket.in_main {
             self.table.replace_bucket_with(bucket.bucket, f)
         } else if let Some(ref mut lo) = self.leftovers {
-            let items = &mut lo.items;
-            let b = bucket.bucket.clone();
-            lo.table.replace_bucket_with(b, move |t| {
-                let v = f(t);
-                if v.is_none() {
-                    items.reflect_remove(&bucket.bucket);
-                }
-                v
-            })
+            // The cached iterator has to learn about the removal while the bucket is still
+            // full (that is `reflect_remove`'s contract), and before `f` runs, so that it
+            // matches the table even if `f` panics. If `f` hands an element back, it is put
+            // into the very same bucket, which makes the iterator as it was before the
+            // removal correct again.
+            let before = lo.items.clone();
+            lo.items.reflect_remove(&bucket.bucket);
+            let still_occupied = lo.table.replace_bucket_with(bucket.bucket, f);
+            if still_occupied {
+                lo.items = before;
+            }
+            still_occupied
         } else {
             unreachable!("invalid bucket state");
         }
